@@ -362,4 +362,201 @@ theorem Mn_add (T : List Nat) (k : Nat) (m : Int) (hm : 0 ≤ m) : ∀ (d : Nat)
     push_cast
     linarith
 
+/-! ### (b) the bounds, in the form the recurrence needs -/
+
+/-- the decrement of the step (the `klotz_step` form) is `r·(a[k+1] − 2·n + r)` -/
+theorem dec_eq (T : List Nat) (k n r : Nat) (hr : r ≤ n) :
+    2 * (r : Int) * ((sumTo T k : Int) - ((n - r : Nat) : Int))
+        + (r : Int) * (((T.getD k 0 : Nat) : Int) - (r : Int))
+      = (r : Int) * (aCoef T (k + 1) - 2 * (n : Int) + (r : Int)) := by
+  rw [aCoef_eq, Nat.cast_sub hr]; ring
+
+theorem max_key (T : List Nat) (k n r : Nat) (u : Int) (hrn : r ≤ n) (hrt : r ≤ T.getD k 0)
+    (h : twoUmax T (k + 1) (n : Int) ≤ u) :
+    twoUmax T k ((n - r : Nat) : Int)
+      ≤ u - (2 * (r : Int) * ((sumTo T k : Int) - ((n - r : Nat) : Int))
+              + (r : Int) * (((T.getD k 0 : Nat) : Int) - (r : Int))) := by
+  rw [dec_eq T k n r hrn]
+  rw [twoUmax_eq, Mx] at h
+  rw [twoUmax_eq]
+  have hx : min (n : Int) ((T.getD k 0 : Nat) : Int) = ((min n (T.getD k 0) : Nat) : Int) := by omega
+  rw [hx] at h
+  generalize hX : min n (T.getD k 0) = X at h
+  have hrX : r ≤ X := by omega
+  have hXn : X ≤ n := by omega
+  have hadd := Mx_add T k ((n : Int) - X) (by omega) (X - r)
+  have e : (n : Int) - X + ((X - r : Nat) : Int) = ((n - r : Nat) : Int) := by omega
+  rw [e] at hadd
+  have hm : ((X - r : Nat) : Int) * aCoef T k ≤ ((X - r : Nat) : Int) * aCoef T (k + 1) :=
+    mul_le_mul_of_nonneg_left (aCoef_mono T k) (Int.natCast_nonneg _)
+  have c1 : ((X - r : Nat) : Int) = (X : Int) - r := by omega
+  have c2 : ((n - r : Nat) : Int) = (n : Int) - r := by omega
+  rw [c1] at hadd hm
+  rw [c2] at hadd ⊢
+  nlinarith [hadd, hm, h]
+
+theorem Mn_key (T : List Nat) (k n r : Nat) (hrn : r ≤ n) (hrt : r ≤ T.getD k 0)
+    (hs : n - r ≤ sumTo T k) :
+    Mn T (k + 1) (n : Int) ≤ Mn T k ((n - r : Nat) : Int) + (r : Int) * aCoef T (k + 1) := by
+  rw [Mn]
+  have hmono := aCoef_mono T k
+  have c2 : ((n - r : Nat) : Int) = (n : Int) - r := by omega
+  by_cases hn : n ≤ sumTo T k
+  · have e0 : min (max 0 ((n : Int) - (sumTo T k : Int))) ((T.getD k 0 : Nat) : Int) = 0 := by omega
+    rw [e0]
+    have hadd := Mn_add T k ((n - r : Nat) : Int) (by omega) r
+    have e : ((n - r : Nat) : Int) + (r : Int) = (n : Int) := by omega
+    rw [e] at hadd
+    have hm : (r : Int) * aCoef T k ≤ (r : Int) * aCoef T (k + 1) :=
+      mul_le_mul_of_nonneg_left hmono (Int.natCast_nonneg _)
+    linarith
+  · have e0 : min (max 0 ((n : Int) - (sumTo T k : Int))) ((T.getD k 0 : Nat) : Int)
+        = ((n - sumTo T k : Nat) : Int) := by omega
+    rw [e0]
+    have hsat := Mn_sat_add T k (sumTo T k : Int) (le_refl _) (n - sumTo T k)
+    have e1 : (sumTo T k : Int) + ((n - sumTo T k : Nat) : Int) = (n : Int) := by omega
+    rw [e1] at hsat
+    have hadd := Mn_add T k ((n - r : Nat) : Int) (by omega) (r - (n - sumTo T k))
+    have e2 : ((n - r : Nat) : Int) + ((r - (n - sumTo T k) : Nat) : Int) = (sumTo T k : Int) := by omega
+    rw [e2] at hadd
+    have hm : ((r - (n - sumTo T k) : Nat) : Int) * aCoef T k
+        ≤ ((r - (n - sumTo T k) : Nat) : Int) * aCoef T (k + 1) :=
+      mul_le_mul_of_nonneg_left hmono (Int.natCast_nonneg _)
+    have c3 : ((r - (n - sumTo T k) : Nat) : Int) = (r : Int) - ((n - sumTo T k : Nat) : Int) := by omega
+    rw [c3] at hadd hm
+    rw [hsat]
+    nlinarith [hadd, hm]
+
+theorem min_key (T : List Nat) (k n r : Nat) (u : Int) (hrn : r ≤ n) (hrt : r ≤ T.getD k 0)
+    (hs : n - r ≤ sumTo T k) (h : u < twoUmin T (k + 1) (n : Int)) :
+    u - (2 * (r : Int) * ((sumTo T k : Int) - ((n - r : Nat) : Int))
+              + (r : Int) * (((T.getD k 0 : Nat) : Int) - (r : Int)))
+      < twoUmin T k ((n - r : Nat) : Int) := by
+  rw [dec_eq T k n r hrn]
+  rw [twoUmin_eq T _ _ (Int.natCast_nonneg _)] at h ⊢
+  have key := Mn_key T k n r hrn hrt hs
+  have c2 : ((n - r : Nat) : Int) = (n : Int) - r := by omega
+  rw [c2] at key ⊢
+  nlinarith [key, h]
+
+/-! ### (c) consequences for the count -/
+
+/-- below the least attainable statistic nothing qualifies -/
+theorem S_below_min (T : List Nat) : ∀ (k n : Nat) (u : Int),
+    u < twoUmin T k (n : Int) → S T k n u = 0 := by
+  intro k
+  induction k with
+  | zero =>
+    intro n u h
+    rw [twoUmin_eq T _ _ (Int.natCast_nonneg _), Mn] at h
+    rw [S, if_neg]
+    rintro ⟨rfl, h0⟩
+    simp at h
+    omega
+  | succ k ih =>
+    intro n u h
+    rw [S]
+    apply Finset.sum_eq_zero
+    intro r hr
+    have hr' := Finset.mem_range.mp hr
+    by_cases hs : n - r ≤ sumTo T k
+    · rw [ih _ _ (min_key T k n r u (by omega) (by omega) hs h), Nat.mul_zero]
+    · rw [S_big T k _ _ (by omega), Nat.mul_zero]
+
+/-- Σ over all classes of the weight: C(Σt, n) (Vandermonde), range-restricted form -/
+theorem vandermonde_range (s t n : Nat) :
+    ∑ r ∈ Finset.range (min t n + 1), Nat.choose t r * Nat.choose s (n - r) = Nat.choose (s + t) n := by
+  rw [Nat.add_comm s t, Nat.add_choose_eq, Finset.Nat.sum_antidiagonal_eq_sum_range_succ_mk]
+  apply Finset.sum_subset
+  · intro r hr
+    have := Finset.mem_range.mp hr
+    exact Finset.mem_range.mpr (by omega)
+  · intro r hr hnr
+    have h1 := Finset.mem_range.mp hr
+    have h2 : ¬ r < min t n + 1 := fun h => hnr (Finset.mem_range.mpr h)
+    have : t < r := by omega
+    simp [Nat.choose_eq_zero_of_lt this]
+
+/-- at or above the greatest attainable statistic every assignment qualifies -/
+theorem S_above_max (T : List Nat) : ∀ (k n : Nat) (u : Int),
+    twoUmax T k (n : Int) ≤ u → S T k n u = Nat.choose (sumTo T k) n := by
+  intro k
+  induction k with
+  | zero =>
+    intro n u h
+    rw [twoUmax_eq, Mx] at h
+    rw [S, sumTo_zero]
+    cases n with
+    | zero => simp at h; simp [h]
+    | succ n => simp
+  | succ k ih =>
+    intro n u h
+    rw [S, sumTo_succ, ← vandermonde_range]
+    apply Finset.sum_congr rfl
+    intro r hr
+    have hr' := Finset.mem_range.mp hr
+    rw [ih _ _ (max_key T k n r u (by omega) (by omega) h)]
+
+/-- total number of assignments -/
+theorem groupCount_total (T : List Nat) (n : Nat) (u : Int) (h : twoUmax T T.length (n : Int) ≤ u) :
+    groupCount T n u = Nat.choose T.sum n := by
+  rw [← S_eq_groupCount, S_above_max T _ _ _ h, sumTo_eq_sum, List.take_length]
+
+/-! ### the base K = 2 -/
+
+theorem S_one (T : List Nat) (m : Nat) (u : Int) :
+    S T 1 m u = if (m : Int) * (((T.getD 0 0 : Nat) : Int) - (m : Int)) ≤ u
+      then Nat.choose (T.getD 0 0) m else 0 := by
+  rw [S]
+  simp only [S, sumTo_zero]
+  by_cases hm : m ≤ T.getD 0 0
+  · rw [Nat.min_eq_right hm, Finset.sum_eq_single m]
+    · simp
+    · intro r hr hne
+      have := Finset.mem_range.mp hr
+      rw [if_neg, Nat.mul_zero]
+      omega
+    · intro h; exact absurd (Finset.mem_range.mpr (Nat.lt_succ_self m)) h
+  · have hlt : T.getD 0 0 < m := by omega
+    rw [Nat.choose_eq_zero_of_lt hlt, ite_self]
+    apply Finset.sum_eq_zero
+    intro r hr
+    have := Finset.mem_range.mp hr
+    rw [if_neg, Nat.mul_zero]
+    omega
+
+theorem base2_eq_S (T : List Nat) (hpos : 0 < T.getD 0 0 + T.getD 1 0) (n : Nat) (u : Int) :
+    base2 T (n : Int) u = S T 2 n u := by
+  have hb : base2 T (n : Int) u = base2 [T.getD 0 0, T.getD 1 0] (n : Int) u := by
+    unfold base2; simp
+  rw [hb, k2_closed_form _ _ _ hpos, S]
+  have hs1 : sumTo T 1 = T.getD 0 0 := by rw [sumTo_succ, sumTo_zero, Nat.zero_add]
+  symm
+  have hsub : Finset.range (min (T.getD 1 0) n + 1) ⊆ Finset.range (n + 1) := by
+    intro r hr
+    have := Finset.mem_range.mp hr
+    exact Finset.mem_range.mpr (by omega)
+  refine (Finset.sum_subset hsub ?_).trans ?_
+  · intro r hr hnr
+    have h1 := Finset.mem_range.mp hr
+    have h2 : ¬ r < min (T.getD 1 0) n + 1 := fun h => hnr (Finset.mem_range.mpr h)
+    have : T.getD 1 0 < r := by omega
+    simp [Nat.choose_eq_zero_of_lt this]
+  · apply Finset.sum_congr rfl
+    intro r hr
+    have h1 := Finset.mem_range.mp hr
+    rw [S_one, hs1]
+    have c : ((n - r : Nat) : Int) = (n : Int) - r := by omega
+    have hc : (((n - r : Nat) : Int) * (((T.getD 0 0 : Nat) : Int) - ((n - r : Nat) : Int))
+          ≤ u - (2 * (r : Int) * (((T.getD 0 0 : Nat) : Int) - ((n - r : Nat) : Int))
+                + (r : Int) * (((T.getD 1 0 : Nat) : Int) - (r : Int))))
+        ↔ ((n : Int) * (((T.getD 0 0 : Nat) : Int) - (n : Int))
+            + (r : Int) * (((T.getD 0 0 : Nat) : Int) + ((T.getD 1 0 : Nat) : Int)) ≤ u) := by
+      rw [c]
+      constructor <;> intro h <;> nlinarith [h]
+    simp only [hc]
+    split
+    · rw [Nat.mul_comm]
+    · rw [Nat.mul_zero]
+
 end C11
